@@ -50,7 +50,7 @@ def run(ctx):
     fx = ctx.fx
     E = effects.get(fx)
     ctx.rules = ['S1 chunk arm -> context effect', 'S2 context -> entity written', 'S3 context writers', 'S4 init None',
-                 'S5 user-data chunk flags', 'S6 accessors', 'S7 entities moved through validation']
+                 'S5 user-data chunk flags', 'S6 accessors', 'S7 entities moved through validation', 'S8 entities born without a record']
     ctx.explanation = (
         'The attachment rule is a finite state machine whose transitions are match arms; the check reads the transition '
         'table off the MIR with an effect analysis (writes through &mut ParseInfo, local callees inlined) and compares it '
@@ -308,6 +308,12 @@ def run(ctx):
                     fl = [e for e in st['p']['p'] if e['k'] == 'field']
                     if fl and fl[-1]['n'] == CTX and st['p']['p'][-1] is fl[-1]:
                         writers.append((body.name, st.get('span')))
+                        if body.name == PF and not any(bi in reg_ for _, _, reg_, _ in arms):
+                            # a write in parse_frame that belongs to no chunk kind (seed C10-h: reset per frame, which
+                            # detaches a record that opens the next frame from the entity that closed the previous one)
+                            ctx.inst('S3', 'parse_frame#outside-dispatch', False, 'parse_frame writes user_data_context outside every arm of the '
+                                     'chunk-type dispatch: the attachment state must change only as the effect of a chunk', st.get('span'),
+                                     key=PF + '|S3|outside-dispatch')
     allowed = {PI + 'add_cel', PI + 'add_layer', PI + 'add_tags', PI + 'set_tag_user_data', PI + 'add_slice', PF}
     ctx.floor('context write sites', len(writers), 5)
     for w, sp in writers:
@@ -327,6 +333,32 @@ def run(ctx):
     for body in fx.bodies:
         if body.name != PI + 'new' and q.stmt_aggs(body, 'asefile::parse::ParseInfo'):
             ctx.inst('S4', body.name, False, 'constructs a ParseInfo outside ParseInfo::new', body.span, key=body.name + '|S4|extra')
+
+    # ---------- S8: entities are born without a record ("entities without a record report none")
+    # every aggregate with a user_data slot is built with None there, or moves the slot of the value it replaces (validation);
+    # a record fabricated from anything else (seed C10-g: the legacy tag colour) is reported by the accessor as user data
+    nborn = 0
+    for body in fx.bodies:
+        if body.kind == 'promoted' or body.name.startswith('asefile::<') and ' as std::clone::Clone>' in body.name:
+            continue
+        for bb, st, t in q.stmt_aggs(body):
+            if not t[1].startswith('asefile::'):
+                continue
+            for fname, v in t[3]:
+                if fname not in ('user_data', 'sprite_user_data'):
+                    continue
+                nborn += 1
+                va = alts(v)
+                def fine(x):
+                    if x[0] == 'agg' and x[2] == 'None':
+                        return True
+                    _base, names = field_path(x)
+                    return bool(names) and names[-1] in ('user_data', 'sprite_user_data')
+                ok = all(fine(x) for x in va)
+                ctx.inst('S8', '%s{%s}' % (t[1].split('::')[-1], fname), ok, '%s builds %s with %s = %s; must be None (or the moved slot of the value it replaces)'
+                         % (body.name.split('asefile::')[-1], t[1].split('::')[-1], fname, show(v)[:80]), st.get('span'),
+                         key=ctx.key(body.name, 'S8', t[1].split('::')[-1], fname))
+    ctx.floor('aggregates with a user-data slot', nborn, 6)
 
     # ---------- S5: user data chunk layout flags
     u = ctx.anchor('asefile::user_data::parse_userdata_chunk')
